@@ -32,8 +32,8 @@ ASSUMPTIONS = ["alias identifiers never coincide with component names", "one dec
 SHARD_TIMEOUT = {"quick": 900, "thorough": 3000}
 
 NAMES = ["M_A", "M_B", "M_C", "core", "util", "runtime", "services", "model", "x1", "importer", "component_registry", "components"]
-DOTTED = ["src.a", "src.a_b", "src.b.c", "src.core.util", "src.ab", "pkg.mod.sub", "src.m1", "components.core", "component.x"]
-WORDS = ["up", "down", "left", "right", "uses"]
+DOTTED = ["src.a", "src.a_b", "src.b.c", "src.core.util", "src.ab", "pkg.mod.sub", "src.m1", "components.core", "component.x", ".".join(f"pkg{i:02d}" for i in range(60)), "src." + "y" * 280]  # the last two: 300-character names
+WORDS = ["up", "down", "left", "right", "uses", "Down", "step2", "reads_from", "\u00dcber", "x"]
 
 
 def plan(tier, seed):
